@@ -186,7 +186,7 @@ def parse_blocks(s):
     for b in out:
         if b.close is None: b.close = len(s)
         h = b.hdr
-        b.test = bool(re.search(r"#\[\s*cfg\s*\(\s*test\s*\)\s*\]|#\[\s*test\s*\]|#\[\s*cfg\s*\(\s*all\s*\(\s*test", h))
+        b.test = bool(re.search(r"#\[\s*cfg\s*\(\s*test\s*\)\s*\]|#\[\s*test\s*\]|#\[\s*cfg\s*\(\s*(all|any)\s*\(\s*test", h))
         b.hook = HOOK_CFG in h
         b.kind, b.name, b.trait = "other", "", ""
         m = re.search(r"\bfn\s+(\w+)", h)
